@@ -7,6 +7,7 @@ require (
 	github.com/holiman/uint256 v1.2.2
 	github.com/rigochain/rigo-go v0.0.0
 	github.com/tendermint/tendermint v0.34.24
+	google.golang.org/protobuf v1.28.2-0.20220831092852-f930b1dc76e8
 )
 
 require (
@@ -59,7 +60,6 @@ require (
 	golang.org/x/text v0.4.0 // indirect
 	google.golang.org/genproto v0.0.0-20221014213838-99cd37c6964a // indirect
 	google.golang.org/grpc v1.50.1 // indirect
-	google.golang.org/protobuf v1.28.2-0.20220831092852-f930b1dc76e8 // indirect
 )
 
 replace github.com/rigochain/rigo-go => /repo
